@@ -76,7 +76,9 @@ def lookup_op(sym, fn, N, dom, compound, valuesel, strict):
     = first; strict raises DuplicateKeyError iff some key repeats."""
     n = nrows(sym, 'n', N)
     hdr = ['t', 'k', 'j']
-    rows = [['T%d' % i, cell(sym, 'r%d.k' % i, dom), cell(sym, 'r%d.j' % i, dom) if compound else i * 10]
+    rows = [['T%d' % i, cell(sym, 'r%d.k' % i, dom),
+             cell(sym, 'r%d.j' % i, dom) if compound else
+             (cell(sym, 'r%d.j' % i, 'Od2') if valuesel == 'j' else i * 10)]
             for i in range(n)]
     key = ('k', 'j') if compound else 'k'
     keys = [(r[1], r[2]) if compound else r[1] for r in rows]
@@ -104,6 +106,8 @@ def lookup_op(sym, fn, N, dom, compound, valuesel, strict):
                 return tuple(row)
             if valuesel == 't':
                 return row[0]
+            if valuesel == 'j':
+                return row[2]
             return (row[0], row[2])     # value=('t','j')
         return dict(zip(hdr, row))
 
@@ -195,13 +199,14 @@ def jobs(tier):
     N = 3 if q else 4
     for fn in ('lookup', 'lookupone', 'dictlookup', 'dictlookupone', 'recordlookup', 'recordlookupone'):
         for dom, compound in (('O', False), ('I', False), ('Od2', True)):
-            vals = [None, 't', ('t', 'j')] if fn in ('lookup', 'lookupone') else [None]
+            vals = [None, 't', 'j', ('t', 'j')] if fn in ('lookup', 'lookupone') else [None]
             for v in vals:
                 if v is not None and dom != 'O':
                     continue
                 for strict in ((False, True) if fn.endswith('one') else (False,)):
-                    out.append(dict(name='%s/%s/n<=%d/value=%s/strict=%d' % (fn, dom, N - compound, v, strict),
+                    Nj = N - compound - (v == 'j' and not q)
+                    out.append(dict(name='%s/%s/n<=%d/value=%s/strict=%d' % (fn, dom, Nj, v, strict),
                                     func='lookup_op',
-                                    params=dict(fn=fn, N=N - compound, dom=dom, compound=compound, valuesel=v, strict=strict),
+                                    params=dict(fn=fn, N=Nj, dom=dom, compound=compound, valuesel=v, strict=strict),
                                     budget=150 if q else 900))
     return out
